@@ -141,6 +141,10 @@ func OCSPSelfTest() error {
 		if !OCSPVerify(r.Cert.SignatureAlgorithm, r.CA.Cert.PublicKey, r.Cert.RawTBSCertificate, r.Cert.Signature) {
 			return fmt.Errorf("ocsp pool: responder certificate not signed by its CA")
 		}
+		if r.Renewed != nil && (bytes.Equal(r.Renewed.Raw, r.Cert.Raw) || !bytes.Equal(r.Renewed.RawSubject, r.Cert.RawSubject) || !bytes.Equal(r.Renewed.RawSubjectPublicKeyInfo, r.Cert.RawSubjectPublicKeyInfo) ||
+			r.Renewed.SerialNumber.Cmp(r.Cert.SerialNumber) == 0 || !OCSPVerify(r.Renewed.SignatureAlgorithm, r.CA.Cert.PublicKey, r.Renewed.RawTBSCertificate, r.Renewed.Signature)) {
+			return fmt.Errorf("ocsp pool: renewed responder certificate is not a same-key/same-subject sibling signed by its CA")
+		}
 		if t := r.CA.Twin; t >= 0 && OCSPVerify(r.Cert.SignatureAlgorithm, pool.CAs[t].Cert.PublicKey, r.Cert.RawTBSCertificate, r.Cert.Signature) {
 			return fmt.Errorf("ocsp pool: responder certificate verifies under the twin CA")
 		}
